@@ -188,17 +188,24 @@ def knownCodepages : List Nat :=
    28593, 1201, 866, 28600, 28598, 10000, 10017, 28604, 28606, 951, 10007, 20936, 20949, 21010,
    28591, 28599, 28601, 50220, 50222, 50225, 50227, 51936, 51949, 52936]
 
+/-- `if read_u16(&stream[0..2]) == 0x004A { *stream = &stream[10..]; }` (optional PROJECTCOMPATVERSION) -/
+def skipCompat (s : Bytes) : Res Bytes :=
+  match s with
+  | a :: b :: _ => if u16le a b = 0x004A then skip 10 s else .ok s
+  | _ => .panic "vba: &stream[0..2]"
+
+/-- `XlsEncoding::from_codepage(read_u16(&stream[6..8]))?` -/
+def readCodepage (s : Bytes) : Res Nat :=
+  match s.drop 6 with
+  | a :: b :: _ => if knownCodepages.contains (u16le a b) then .ok (u16le a b) else .err "codepage"
+  | _ => .panic "vba: &stream[6..8]"
+
 /-- `read_dir_information`: returns the project code page and the rest of the stream -/
 def readDirInformation (s : Bytes) : Res (Nat × Bytes) := do
   let s ← skip 10 s                                   -- PROJECTSYSKIND
-  let s ← match s with                                -- PROJECTCOMPATVERSION (optional): `read_u16(&stream[0..2]) == 0x004A`
-    | a :: b :: _ => if u16le a b = 0x004A then skip 10 s else .ok s
-    | _ => .panic "vba: &stream[0..2]"
+  let s ← skipCompat s                                -- PROJECTCOMPATVERSION (optional)
   let s ← skip 20 s                                   -- PROJECTLCID, PROJECTLCIDINVOKE
-  let cp ← match s.drop 6 with                        -- `read_u16(&stream[6..8])`
-    | a :: b :: _ => (.ok (u16le a b) : Res Nat)
-    | _ => .panic "vba: &stream[6..8]"
-  if !knownCodepages.contains cp then .err "codepage" else
+  let cp ← readCodepage s                             -- PROJECTCODEPAGE
   let s ← skip 8 s
   let (_, s) ← checkVar 0x0004 s                      -- PROJECTNAME
   let (_, s) ← checkVar 0x0005 s                      -- PROJECTDOCSTRING
@@ -249,49 +256,78 @@ def stripStarC (l : Bytes) : Bytes :=
   | 0x2A :: 0x5C :: 0x43 :: r => r
   | _ => l
 
+/-- arm `0x0016` (REFERENCENAME): `read_variable_record` + `check_variable_record(0x003E)` -/
+def refName (s : Bytes) : Res (Bytes × Bytes) := do
+  let (name, s) ← readVar s
+  let (_, s) ← checkVar 0x003E s
+  .ok (name, s)
+
+/-- inside arm `0x002F`: `match stream.read_u16()? { 0x0016 => { name extended … check_record(0x0030) } 0x0030 => (), e => Err }` -/
+def refControlExt (t : Nat) (s : Bytes) : Res Bytes :=
+  if t = 0x0016 then do
+    let (_, s) ← readVar s
+    let (_, s) ← checkVar 0x003E s
+    checkRecord 0x0030 s
+  else if t = 0x0030 then .ok s
+  else .err "unknown"
+
+/-- arm `0x002F` (REFERENCECONTROL) -/
+def refControl (cur : Ref) (s : Bytes) : Res (Ref × Bytes) := do
+  let s ← skip 4 s
+  let (cur, s) ← setLibid cur s
+  let s ← skip 6 s
+  let (t, s) ← readU16 s
+  let s ← refControlExt t s
+  let s ← skip 4 s
+  let (cur, s) ← setLibid cur s
+  let s ← skip 26 s
+  .ok (cur, s)
+
+/-- arm `0x000D` (REFERENCEREGISTERED) -/
+def refRegistered (cur : Ref) (s : Bytes) : Res (Ref × Bytes) := do
+  let s ← skip 4 s
+  let (cur, s) ← setLibid cur s
+  let s ← skip 6 s
+  .ok (cur, s)
+
+/-- arm `0x000E` (REFERENCEPROJECT) -/
+def refProject (cur : Ref) (s : Bytes) : Res (Ref × Bytes) := do
+  let s ← skip 4 s
+  let (absolute, s) ← readVar s
+  let (_, s) ← readVar s
+  let s ← skip 6 s
+  .ok ({ cur with path := stripStarC absolute }, s)
+
 /-- `Reference::from_stream`: the `loop { match stream.read_u16()? { … } }`; every iteration consumes the
     2-byte id, so `s.length + 1` fuel suffices -/
 def readReferences : Nat → Bytes → List Ref → Ref → Res (List Ref × Bytes)
   | 0, _, _, _ => .outOfFuel
-  | fuel + 1, s, refs, cur => do
-    let (id, s) ← readU16 s
-    if id = 0x000F then .ok (pushIfNamed refs cur, s)
-    else if id = 0x0016 then                          -- REFERENCENAME
-      let refs := pushIfNamed refs cur
-      let (name, s) ← readVar s
-      let (_, s) ← checkVar 0x003E s
-      readReferences fuel s refs { name := name, description := name, path := [] }
-    else if id = 0x0033 then do                       -- REFERENCEORIGINAL
-      let (cur, s) ← setLibid cur s
-      readReferences fuel s refs cur
-    else if id = 0x002F then do                       -- REFERENCECONTROL
-      let s ← skip 4 s
-      let (cur, s) ← setLibid cur s
-      let s ← skip 6 s
-      let (t, s) ← readU16 s
-      let s ← (if t = 0x0016 then do
-                  let (_, s) ← readVar s
-                  let (_, s) ← checkVar 0x003E s
-                  checkRecord 0x0030 s
-               else if t = 0x0030 then .ok s
-               else .err "unknown")
-      let s ← skip 4 s
-      let (cur, s) ← setLibid cur s
-      let s ← skip 26 s
-      readReferences fuel s refs cur
-    else if id = 0x000D then do                       -- REFERENCEREGISTERED
-      let s ← skip 4 s
-      let (cur, s) ← setLibid cur s
-      let s ← skip 6 s
-      readReferences fuel s refs cur
-    else if id = 0x000E then do                       -- REFERENCEPROJECT
-      let s ← skip 4 s
-      let (absolute, s) ← readVar s
-      let cur := { cur with path := stripStarC absolute }
-      let (_, s) ← readVar s
-      let s ← skip 6 s
-      readReferences fuel s refs cur
-    else .err "unknown"
+  | fuel + 1, s, refs, cur =>
+    match readU16 s with
+    | .ok (id, s) =>
+      if id = 0x000F then .ok (pushIfNamed refs cur, s)
+      else if id = 0x0016 then
+        match refName s with
+        | .ok (name, s) => readReferences fuel s (pushIfNamed refs cur) { name := name, description := name, path := [] }
+        | .err e => .err e | .panic m => .panic m | .outOfFuel => .outOfFuel
+      else if id = 0x0033 then                          -- REFERENCEORIGINAL
+        match setLibid cur s with
+        | .ok (cur, s) => readReferences fuel s refs cur
+        | .err e => .err e | .panic m => .panic m | .outOfFuel => .outOfFuel
+      else if id = 0x002F then
+        match refControl cur s with
+        | .ok (cur, s) => readReferences fuel s refs cur
+        | .err e => .err e | .panic m => .panic m | .outOfFuel => .outOfFuel
+      else if id = 0x000D then
+        match refRegistered cur s with
+        | .ok (cur, s) => readReferences fuel s refs cur
+        | .err e => .err e | .panic m => .panic m | .outOfFuel => .outOfFuel
+      else if id = 0x000E then
+        match refProject cur s with
+        | .ok (cur, s) => readReferences fuel s refs cur
+        | .err e => .err e | .panic m => .panic m | .outOfFuel => .outOfFuel
+      else .err "unknown"
+    | .err e => .err e | .panic m => .panic m | .outOfFuel => .outOfFuel
 
 /-- a `Module` record: name and stream name still encoded -/
 structure Module where
